@@ -50,6 +50,14 @@ class CompileClient(Client):
         if path in ENV_ROLES:
             kind, res = ENV_ROLES[path]
             return {"kind": kind, "args": (recv,) + tuple(args), "result": res, "hint": kind}
+        if path.startswith(C + "Environment::") and recv is not None and path != C + "Environment::new":
+            # a method of the environment the rules have no role for (a helper added by a refactoring): its result is
+            # still "something this environment said" — enough for index provenance (R2.frame); scoping rules that need
+            # its meaning (C12) report it as unknown
+            b = self.fx.body(path)
+            rt = (self.fx.tyname(b.get("ret_ty")) if b else None) or ""
+            res = "unit" if rt == "()" else ("result" if rt.startswith("std::result::Result<") else ("option" if rt.startswith("std::option::Option<") else "sym"))
+            return {"kind": "env_other", "args": (recv,) + tuple(args), "result": res, "hint": "env:" + path.rsplit("::", 1)[1]}
         return None
 
     def pure(self, ex, path, node, recv, args):
